@@ -915,9 +915,14 @@ func c18ArgumentRoles(w *World, r *Report) {
 		}
 		switch x := v.(type) {
 		case *ssa.Parameter:
-			for i, q := range x.Parent().Params {
+			// the k-th parameter of its type (the position in the list may change)
+			k := 0
+			for _, q := range x.Parent().Params {
 				if q == x {
-					return fmt.Sprintf("param #%d", i)
+					return fmt.Sprintf("the %s parameter #%d", types.TypeString(x.Type(), func(*types.Package) string { return "" }), k)
+				}
+				if types.Identical(q.Type(), x.Type()) {
+					k++
 				}
 			}
 			return "param ?"
@@ -940,12 +945,12 @@ func c18ArgumentRoles(w *World, r *Report) {
 		return "other"
 	}
 	want := map[string][]string{
-		"hasMandatoryChildren: isAChoice":                {"param #0", "element"},
-		"hasCaseMandatoryChildren: isACaseChoice":        {"param #1", "element"},
-		"checkMandatory: isAChoice":                      {"call schema", "element"},
-		"isActiveDefault: cfg checker (param #3) #1":     {"element"},
-		"isActiveDefault: cfg checker (param #3) #2":     {"param #0"},
-		"isActiveDefaultCase: cfg checker (param #3) #1": {"element"},
+		"hasMandatoryChildren: isAChoice":         {"the Node parameter #0", "element"},
+		"hasCaseMandatoryChildren: isACaseChoice": {"the Node parameter #0", "element"},
+		"checkMandatory: isAChoice":               {"call schema", "element"},
+		"isActiveDefault: cfg checker #1":         {"element"},
+		"isActiveDefault: cfg checker #2":         {"the Node parameter #0"},
+		"isActiveDefaultCase: cfg checker #1":     {"element"},
 	}
 	seen := map[string]bool{}
 	sp := w.SSAPkg("schema")
@@ -971,13 +976,7 @@ func c18ArgumentRoles(w *World, r *Report) {
 					sites = append(sites, site{fn + ": " + nm(sc), c.Call.Args, c.Pos()})
 				} else if p, ok := c.Call.Value.(*ssa.Parameter); ok && !c.Call.IsInvoke() {
 					if _, isSig := p.Type().Underlying().(*types.Signature); isSig {
-						idx := 0
-						for i, q := range f.Params {
-							if q == p {
-								idx = i
-							}
-						}
-						sites = append(sites, site{fmt.Sprintf("%s: cfg checker (param #%d)", fn, idx), c.Call.Args, c.Pos()})
+						sites = append(sites, site{fn + ": cfg checker", c.Call.Args, c.Pos()})
 					}
 				}
 			}
